@@ -182,8 +182,8 @@ def gen_adapter(c, layout="", iname=None):
          "import (", '\t"example.com/w/rt"', f'\tmk "example.com/w/mocks/{mockpkg}"']
     if var:
         o.append('\t"github.com/stretchr/testify/mock"')
-    o += [")", "", f"type {A} struct {{", f"\tm   *mk.{mockty}{inst}", "\tlog *rt.Log", "}", "",
-          f"func init() {{\n\trt.Register({json.dumps(regid)}, func(t *rt.RecT, log *rt.Log) rt.Adapter {{ return &{A}{{m: mk.New{mockty}{inst}(t), log: log}} }})\n}}", ""]
+    o += [")", "", f"type {A} struct {{", f"\tm   *mk.{mockty}{inst}", "\tlog *rt.Log", "\tbuf []interface{}", "}", "",
+          f"func init() {{\n\trt.Register({json.dumps(regid)}, func(t *rt.RecT, log *rt.Log) rt.Adapter {{ return &{A}{{m: mk.New{mockty}{inst}(t), log: log, buf: make([]interface{{}}, 0, 8)}} }})\n}}", ""]
     if var:
         o += [f"func absv_{cid}(pv []{GO[vk]}) []string {{", "\tout := []string{}", "\tfor _, e := range pv {",
               f"\t\tout = append(out, rt.A_{vk}(9, e))", "\t}", "\treturn out", "}", "",
@@ -209,7 +209,10 @@ def gen_adapter(c, layout="", iname=None):
             o.append(f"\tx{i} := rt.Matcher(op.Ms[{i}], func() interface{{}} {{ return rt.C_{k}({i}, op.Ms[{i}].V) }})")
             args.append(f"x{i}")
         if var:
-            o += ["\tvar tr []interface{}", f"\tfor _, it := range op.Ms[{np_}:] {{", f"\t\ttr = append(tr, mv_{cid}(it))", "\t}"]
+            # registration by spread from ONE backing buffer per mock, reused by every registration and overwritten
+            # after each: the expectation store must hold the values as they were at registration time
+            o += ["\ttr := a.buf[:0]", f"\tfor _, it := range op.Ms[{np_}:] {{", f"\t\ttr = append(tr, mv_{cid}(it))", "\t}",
+                  "\tdefer func() {", "\t\tfull := tr[:cap(tr)]", "\t\tfor i := range full {", "\t\t\tfull[i] = rt.Poison", "\t\t}", "\t}()"]
             args.append("tr...")
         elif True:
             o.append(f"\tif len(op.Ms) != {np_} {{\n\t\tpanic(\"rt: too many matchers\")\n\t}}")
@@ -386,7 +389,7 @@ def op_key(o):
         return json.dumps(["e", o["m"], o["ms"], o["style"], o["rets"], o["rem"]])
     if o["op"] == "call":
         return json.dumps(["c", o["m"], o["f"], o["v"], o["form"]])
-    return '"x"'
+    return '"u"' if o["op"] == "usererrorf" else '"x"'
 
 
 def dedupe_prefixes(cases):
@@ -437,6 +440,9 @@ def random_history(rng, c, max_ops, max_exp):
     def rand_var():
         return [rng.choice(["V1", "V1", "V2", "V0"]) for _ in range(rng.choice([0, 0, 1, 1, 2, 2, 3]))] if var else []
     while len(ops) < n:
+        if rng.random() < 0.06:
+            ops.append({"op": "usererrorf"})
+            continue
         if len(exps) < max_exp and (not exps or rng.random() < 0.35):
             base = rand_fixed("V1")
             ms = [ANY if (k == "func" or rng.random() < 0.4) else elem(v) for k, v in zip(c["pk"], base)]
@@ -530,6 +536,8 @@ def trace_events(cases, per, byid, offset=0):
         for si, o in enumerate(c["ops"]):
             if o["op"] == "expect":
                 evs.append({"op": "expect", "case": ci + offset, "step": si, "m": o["m"], "ms": o["ms"], "style": o["style"], "rets": o["rets"], "rem": o["rem"]})
+            elif o["op"] == "usererrorf":
+                evs.append({"op": "usererrorf", "case": ci + offset, "step": si})
             elif si in per[ci]:
                 pr = project(o, per[ci][si])
                 if o["op"] == "call":
@@ -715,7 +723,8 @@ def run(ctx):
     guard = {"failnow": 0, "panic_naming": 0, "nil_return": 0, "callback": 0, "cleanup_yes": 0, "cleanup_no": 0,
              "variadic_slice_match": 0, "variadic_elem_match": 0, "once_exhausted": 0, "second_expectation": 0,
              "nil_iface_arg_through_run": 0, "nil_iface_arg_through_rar_no_result": 0, "whole_provider_variadic_multi_unrolled": 0,
-             "whole_provider_variadic_multi_slice_mode": 0, "slice_form_provider_accepted_by_impl": 0, "slice_form_provider_refused_by_impl": 0}
+             "whole_provider_variadic_multi_slice_mode": 0, "slice_form_provider_accepted_by_impl": 0, "slice_form_provider_refused_by_impl": 0,
+             "unmet_after_unexpected_call_failed_the_test": 0, "unmet_after_users_errorf": 0, "all_met_in_failed_test": 0}
     for c in cases:
         k = byid[c["class"]]
         for o in c["ops"]:
@@ -738,6 +747,10 @@ def run(ctx):
                     guard["variadic_elem_match" if k["unroll"] == "true" else "variadic_slice_match"] += 1
             elif o["op"] == "cleanup":
                 guard["cleanup_yes"] += o["expect"] == "yes"
+                before = c["ops"][:c["ops"].index(o)]
+                guard["unmet_after_unexpected_call_failed_the_test"] += o["expect"] == "yes" and any(q["op"] == "call" and q["matched"] == 0 for q in before)
+                guard["unmet_after_users_errorf"] += o["expect"] == "yes" and any(q["op"] == "usererrorf" for q in before)
+                guard["all_met_in_failed_test"] += o["expect"] == "no" and o["failed"]
                 guard["cleanup_no"] += o["expect"] == "no"
         calls = [o for o in c["ops"] if o["op"] == "call"]
         for a, b in zip(calls, calls[1:]):
@@ -787,7 +800,7 @@ def run(ctx):
         if c.get("random"):
             continue
         for si, o in enumerate(c["ops"]):
-            if o["op"] == "expect":
+            if o["op"] in ("expect", "usererrorf"):
                 continue
             if si not in per[ci]:
                 raise MachineryError(f"driver log has no event for case {ci} step {si}")
